@@ -28,8 +28,9 @@ mkdir -p replays/C20 replays/C17
 (cd replays && ls C20/* C17/* 2>/dev/null | sort) > "$S/replays.before"
 cleanup_replays() { (cd replays && ls C20/* C17/* 2>/dev/null | sort | comm -13 "$S/replays.before" - | xargs -r rm -f); }
 sigs() { grep '^  signature: ' | sed 's/^  signature: //' | sort -u; }
+# (family A only: VERIF_C20_FAMILIES=A; family B has its own self-test in checks/c20b)
 run() { # $1 = c20|c17sched  $2 = overlay or ""  $3 = tier  $4 = scenario filter
-  VERIF_OVERLAY="$2" VERIF_SCHED_ONLY="$4" ./bin/$1 --tier "${3:-quick}" --no-evidence 2>&1
+  VERIF_C20_FAMILIES=A VERIF_OVERLAY="$2" VERIF_SCHED_ONLY="$4" ./bin/$1 --tier "${3:-quick}" --no-evidence 2>&1
 }
 run c20 "" > "$S/base.c20.out"; sigs < "$S/base.c20.out" > "$S/base.c20.sigs"
 run c17sched "" > "$S/base.c17sched.out"; sigs < "$S/base.c17sched.out" > "$S/base.c17sched.sigs"
